@@ -272,20 +272,23 @@ def _do_game(rec: dict, unit: dict):
 
 def _do_probe(rec: dict, unit: dict):
     cfg, notes = _resolve_cfg(unit)
-    rec["notes"] += notes
+    rec["notes"] += [n for n in notes if n != "scenario-given-a-minimal-proxy-agent"]
     if cfg is None:
         return
-    p, buckets = dist.probe(cfg, unit["seed"])
+    p, buckets = dist.probe(cfg, unit["seed"], unit.get("length"))
     max_len = int((cfg.get("game") or {}).get("max_episode_length", 256))
-    _absorb(rec, p, unit["label"], "undisturbed-probe", cfg, max_len)
+    _absorb(rec, p, unit["label"], "undisturbed-probe" if not unit.get("no_plan") else "undisturbed-long-episode", cfg, max_len)
     _scripted_hist(rec, p, "probe")
-    _count(rec, "case:probe")
+    _count(rec, "case:probe" if not unit.get("no_plan") else "case:long-undisturbed")
+    _count(rec, "undisturbed:steps", p.steps)
+    for name, st in p.scripted.items():
+        _count(rec, f"undisturbed:scripted-actions:{st['type']}", st["actions"])
     rec["cases"].append((f"{unit['label']}|probe|{unit['seed']}", True))
     rec["extra"]["buckets"] = buckets
     rec["extra"]["relevant"] = dist.relevant_actions(cfg)
     rec["extra"]["n_actions"] = len(dist.blue_map(cfg))
     rec["extra"]["red_types"] = sorted({a.get("type") for a in dist.red_agents(cfg)})
-    rec["extra"]["probe_ok"] = p.raised is None and p.steps == max_len
+    rec["extra"]["probe_ok"] = p.raised is None and p.steps == min(max_len, unit.get("length") or max_len)
 
 
 def _run_episode(env, cfg, ops, max_len, fresh_check: bool, announce: bool = True):
@@ -364,6 +367,8 @@ def _do_agents(rec: dict, unit: dict):
             raises += r["raises"]
             _count(rec, f"agents:c19-family:{kind}:cases", r["cases"])
             _count(rec, f"agents:c19-family:{kind}:steps", r["steps"])
+            if r.get("skipped"):
+                _count(rec, f"agents:c19-family:{kind}:generated cases outside C01's domain (network knowledge does not cover the targets), skipped", r["skipped"])
             rec["extra"]["evals"] = rec["extra"].get("evals", 0) + r["cases"]
     rec["traces"] += rec["extra"].get("evals", 0)
     for x in raises:
@@ -506,6 +511,17 @@ def _phase1(ctx: Ctx, rng: Rng) -> List[dict]:
     for spec in _disturb_scenarios(ctx):
         units.append({"kind": "probe", **spec, "seed": rng.fork("probe" + spec["label"]).below(2 ** 31),
                       "weight": 35 if "uc7" in spec["label"] else 10})
+    # long UNDISTURBED episodes (blue idle up to max_episode_length) of the scenarios that have no probe: thorough = every shipped
+    # scenario, quick = a seeded sample of three (the uc7 scenarios and uc2 are already run to the end by their probes)
+    probed = {u["label"] for u in units if u["kind"] == "probe"}
+    rest = [n for n in shipped if n not in SKIP and n not in MARL and n not in probed]
+    r_long = rng.fork("long")
+    if not ctx.thorough:
+        rest = r_long.shuffle([n for n in rest if not n.startswith("nmap_")])[:3]
+    for n in rest:
+        slow = n.startswith("nmap_")       # seconds per step: 45 steps (past the 30-tick session time-out), not 256
+        units.append({"kind": "probe", "label": n + "(long)", "scenario": n, "seed": r_long.fork(n).below(2 ** 31), "no_plan": True,
+                      "length": 45 if slow else None, "weight": 40 if slow else 8})
     return units
 
 
@@ -718,7 +734,11 @@ def run(ctx: Ctx):
     recs1 = _pool_map(units1, n_workers)
     _merge(ctx, units1, recs1, all_lines, all_impl, env_viol)
     ctx.cov["phase1_wall_s"] = round(time.time() - t0, 1)
-    probes = [(u, r) for u, r in zip(units1, recs1) if u["kind"] == "probe"]
+    for u, r in zip(units1, recs1):
+        if u["kind"] == "probe" and u.get("no_plan"):
+            ctx.oblige(f"rig: long undisturbed episode of {u['label']} ran to the end", "correspondence",
+                       bool(r["extra"].get("probe_ok")) or bool(r["viol"]) or not r["extra"], "episode did not complete")
+    probes = [(u, r) for u, r in zip(units1, recs1) if u["kind"] == "probe" and not u.get("no_plan")]
     ctx.cov["disturbed_scenarios"] = {u["label"]: {"buckets": r["extra"].get("buckets"), "relevant_actions": r["extra"].get("relevant"),
                                                    "actions": r["extra"].get("n_actions"), "red": r["extra"].get("red_types")}
                                       for u, r in probes}
